@@ -30,7 +30,8 @@ func collInput(ops []collh.Op) map[string]interface{} {
 	return map[string]interface{}{"kind": "coll", "ops": ops}
 }
 
-var collOpts = collh.RunOpts{Reference: true}
+// the reference keys hashes by Equals: the property says "a map keyed by value equality"
+var collOpts = collh.RunOpts{Reference: true, KeysByEquals: true}
 
 // tagLiteralRepeatedKey marks exactly the open finding C09-literal-repeated-key: the step reads literal text in
 // which a hash repeats a key, and the parser returned the entries as written (both entries of the key).
@@ -80,11 +81,12 @@ func collNontrivial(h *collh.History) bool {
 }
 
 type collRunner struct {
-	cfg   *lib.Config
-	res   *lib.Result
-	cf    *lib.CasesFile
-	total int
-	dcoq  int
+	cfg     *lib.Config
+	res     *lib.Result
+	cf      *lib.CasesFile
+	total   int
+	dcoq    int
+	keyHist int
 	// tieAmbiguous: also compare with the model the histories in which Equals and structural equality of a compared
 	// pair differ (a hash entry against its two element array, two hashes with the same entries in another order):
 	// the Go reference takes no side there (collh/ref.go), the model does (Coll.v: keq = veq, property C07)
@@ -354,14 +356,21 @@ func runColl(cfg *lib.Config, res *lib.Result, rng *lib.Rng) {
 	timed("deleteall_chains", deleteAllChains)
 	timed("nested_keys", nestedKeys)
 	timed("equal_not_identical_keys", equalNotIdenticalKeys)
+	timed("key_pairs", func(r *collRunner) { keyPairs(r, rng.Fork()) })
 	t0 := time.Now()
 	defer func() { res.Extra["coll_seconds_random"] = time.Since(t0).Seconds() }()
 	n, coq := 20000, 300
+	alike := collh.AlikeKeys()
 	if cfg.Thorough() {
 		n, coq = 400000, 5000
 	}
 	for i := 0; i < n; i++ {
 		g := rng.Fork()
+		if i%3 == 2 {
+			// keys that print alike, and equal keys that are different trees (hashes in another order)
+			r.check(collh.RandomHistoryKeys(g, 6+g.Intn(40), collh.ModelWeights, alike), i < coq && i%2 == 0, "random-alike-keys")
+			continue
+		}
 		r.check(collh.RandomHistory(g, 6+g.Intn(54), collh.ModelWeights), i < coq, "random")
 	}
 	res.CorrFiles = append(res.CorrFiles, r.cf.WriteTo(cfg.Out, "cases_coll"))
@@ -655,6 +664,11 @@ func equalNotIdenticalKeys(r *collRunner) {
 	ab := H(E(S("a"), I(1)), E(S("b"), I(2)))
 	ba := H(E(S("b"), I(2)), E(S("a"), I(1)))
 	pairs := [][2]*collh.PV{{E(S("a"), I(1)), A(S("a"), I(1))}, {ab, ba}, {A(ab), A(ba)}, {A(E(S("a"), I(1))), A(A(S("a"), I(1)))}}
+	// ... and with keys of different kinds that print alike inside the key hashes
+	one, tr := H(E(I(1), S("a")), E(S("1"), S("b"))), H(E(collh.Bo(true), I(1)), E(S("true"), I(2)), E(collh.U(), I(3)), E(S("undef"), I(4)))
+	oneR, trR := H(E(S("1"), S("b")), E(I(1), S("a"))), H(E(S("undef"), I(4)), E(S("true"), I(2)), E(collh.U(), I(3)), E(collh.Bo(true), I(1)))
+	pairs = append(pairs, [2]*collh.PV{one, oneR}, [2]*collh.PV{tr, trR}, [2]*collh.PV{A(S("p"), one), A(S("p"), oneR)},
+		[2]*collh.PV{H(E(one, I(1)), E(S("q"), tr)), H(E(S("q"), trR), E(oneR, I(1)))})
 	r.tieAmbiguous = true
 	defer func() { r.tieAmbiguous = false }()
 	n := 0
